@@ -21,7 +21,7 @@ add("C01", "TestC01", "exploration",
     RAPID, "DESIGN.md §4 C01")
 
 add("C02", "TestC02", "exploration",
-    dict(cases=40000, shards=8, extra=[dict(test="TestC02Exhaustive", shards=8)]), dict(cases=150000, shards=16, timeout_s=3000, extra=[dict(test="TestC02Exhaustive", shards=16, timeout_s=3000)]),
+    dict(cases=40000, shards=8, extra=[dict(test="TestC02Exhaustive", shards=8)]), dict(cases=600000, shards=16, timeout_s=3000, extra=[dict(test="TestC02Exhaustive", shards=16, timeout_s=3000)]),
     "cases as C01 with values forced to contain runs of equal neighbours (geometric run lengths, pair duplication, constant, A/B/A alphabets); non-trivial = at least one de-duplicated key shares a longer prefix with the NEXT retained key than with its own retained predecessor (its bits lead into the wrong neighbour's sub-trie)",
     "Generated-input search: RangeGet on every input key (retained or dropped) must return the value supplied for it, in every option combination, fresh and reloaded.",
     "Trusted: reference model (cover index computed from independently encoded values).",
@@ -29,7 +29,7 @@ add("C02", "TestC02", "exploration",
 
 add("C03", "TestC03", "exploration",
     dict(cases=12000, shards=8, extra=[dict(test="TestC03Exhaustive", shards=8)]),
-    dict(cases=100000, shards=16, timeout_s=3000, extra=[dict(test="TestC03Exhaustive", shards=16, timeout_s=3000)],
+    dict(cases=200000, shards=16, timeout_s=3000, extra=[dict(test="TestC03Exhaustive", shards=16, timeout_s=3000)],
          fuzz=dict(target="FuzzC03", seconds=240)),
     "rapid part: Complete tries (all three spellings) x dedup x values x load state, queried with Q(keys) = keys, every one-bit/one-byte mutation, proper prefixes, 0x00/0xff extensions, out-of-range strings, '', drawn strings; exhaustive part: every key set of bounded size over a small nibble-diverse alphabet x dedup x every neighbour-equality pattern of values x every universe string as query; non-trivial = an absent query sharing >= 1 byte with a neighbouring retained key (or an exhaustive-universe case with >= 2 keys)",
     "Generated-input search plus exhaustive enumeration of a small universe: Get/GetID/RangeGet/Search on every query are compared with the model (exact membership, floor, strict neighbours).",
@@ -37,38 +37,38 @@ add("C03", "TestC03", "exploration",
     RAPID + " + exhaustive small-universe enumeration (+ native go fuzzing in thorough)", "DESIGN.md §4 C03")
 
 add("C09", "TestC09", "exploration",
-    dict(cases=40000, shards=8, extra=[dict(test="TestC09Exhaustive", shards=8)]), dict(cases=150000, shards=16, timeout_s=3000, extra=[dict(test="TestC09Exhaustive", shards=16, timeout_s=3000)]),
+    dict(cases=40000, shards=8, extra=[dict(test="TestC09Exhaustive", shards=8)]), dict(cases=600000, shards=16, timeout_s=3000, extra=[dict(test="TestC09Exhaustive", shards=16, timeout_s=3000)]),
     "cases as C01 with values always supplied, all modes, fresh/reloaded; every retained key is a query; non-trivial = >= 3 retained keys on a trie with a 257-bit node, a short node or a prefix key",
     "Generated-input search: Search(k) for every retained key k must return (value of previous retained key | nil, own value, value of next retained key | nil).",
     "Trusted: reference model.", RAPID, "DESIGN.md §4 C09")
 
 add("C10", "TestC10", "exploration",
-    dict(cases=12000, shards=8, extra=[dict(test="TestC10Exhaustive", shards=8)]), dict(cases=120000, shards=16, timeout_s=3000, extra=[dict(test="TestC10Exhaustive", shards=16, timeout_s=3000)], fuzz=dict(target="FuzzC10", seconds=240)),
+    dict(cases=12000, shards=8, extra=[dict(test="TestC10Exhaustive", shards=8)]), dict(cases=200000, shards=16, timeout_s=3000, extra=[dict(test="TestC10Exhaustive", shards=16, timeout_s=3000)], fuzz=dict(target="FuzzC10", seconds=240)),
     "cases as C01 (all modes, nil values, empty and single-key tries, fresh/reloaded) queried with Q(keys) plus 64 KiB strings of 0x00/0xff and a 70 000 byte string; non-trivial = a false positive was observed or an absent query shares a prefix with a retained key",
     "Generated-input search over relations that need no per-mode expectation: no panic; Get.found <=> GetID>=0 <=> Search.eq != nil; Get.found => RangeGet.found with the same value; every returned value was supplied at build time.",
     "Trusted: harness bookkeeping of supplied values. Non-termination is only detected through the test deadline (reported as inconclusive, exit 2).",
     RAPID.replace("against a sorted-map reference model", "with relational oracles") + " (+ native go fuzzing in thorough)", "DESIGN.md §4 C10")
 
 add("C13", "TestC13", "exploration",
-    dict(cases=8000, shards=8, extra=[dict(test="TestC13Exhaustive", shards=8)]), dict(cases=60000, shards=16, timeout_s=3000, extra=[dict(test="TestC13Exhaustive", shards=16, timeout_s=3000)]),
+    dict(cases=8000, shards=8, extra=[dict(test="TestC13Exhaustive", shards=8)]), dict(cases=200000, shards=16, timeout_s=3000, extra=[dict(test="TestC13Exhaustive", shards=16, timeout_s=3000)]),
     "one (keys, values, dedup) input built in four information levels (filter, inner, leaf, complete; alternative spellings of the options drawn), queried with retained keys and Q(keys); non-trivial = some query found in a weaker mode and rejected in a stronger one",
     "Metamorphic: found in a mode storing more information implies found with the same value in every mode storing less; Complete finds exactly the retained keys; all modes agree on retained keys.",
     "Trusted: reference model for the retained-key set.", "metamorphic property-based testing (rapid)", "DESIGN.md §4 C13")
 
 add("C14", "TestC14", "exploration",
-    dict(cases=24000, shards=8), dict(cases=100000, shards=16, timeout_s=3000),
+    dict(cases=24000, shards=8), dict(cases=400000, shards=16, timeout_s=3000),
     "keys as C01; int8/16/32/64 values over the full range (edge values and random), with duplicate runs; all modes; fresh/reloaded; queries = all input keys and Q(keys); non-trivial = a hit with a negative value on a trie where de-duplication dropped a key",
     "Differential: GetI8/16/32/64(q) must equal Get(q) in flag and number for every query; retained keys are additionally anchored to the model.",
     "Trusted: reference model.", "differential property-based testing (rapid)", "DESIGN.md §4 C14")
 
 add("C18", "TestC18", "exploration",
-    dict(cases=24000, shards=8, extra=[dict(test="TestC18Exhaustive", shards=8)]), dict(cases=150000, shards=16, timeout_s=3000, extra=[dict(test="TestC18Exhaustive", shards=16, timeout_s=3000)]),
+    dict(cases=24000, shards=8, extra=[dict(test="TestC18Exhaustive", shards=8)]), dict(cases=400000, shards=16, timeout_s=3000, extra=[dict(test="TestC18Exhaustive", shards=16, timeout_s=3000)]),
     "cases as C01 plus tries loaded from generated legacy streams (8 layouts); non-trivial = >= 4 levels and a leaf above the last level",
     "Generated-input search: KeyCnt equals the model's retained-key count; per-level totals are consistent and monotone; (0,0)/(1,1) for empty/single; Stat unchanged by a round trip; KeyCnt preserved by legacy streams; cross-check: String() renders NodeCnt lines.",
     "Trusted: reference model; legacy writers (validated byte-for-byte against the archived fixtures).", RAPID, "DESIGN.md §4 C18")
 
 add("C19", "TestC19", "exploration",
-    dict(cases=1200, shards=8), dict(cases=30000, shards=16, timeout_s=3000),
+    dict(cases=1200, shards=8), dict(cases=40000, shards=16, timeout_s=3000),
     "cases as C01 with integer (or no) values, weighted towards regular trees that produce short nodes of a targeted table size and towards 257-bit nodes; non-trivial = the trie contains at least one table-compressed short node",
     "Generated-input search: String() must not panic, must render every node id exactly once, its leaf lines top to bottom must carry the retained values in key order, the labels and steps on the path to the j-th leaf must spell the bits of the j-th retained key (documented line format <label>-><id>+<step>*<fanout>=<value>), and a reloaded trie must render identically.",
     "Trusted: the rendering grammar of openacid/low/tree and the documented line format.", RAPID, "DESIGN.md §4 C19")
@@ -80,7 +80,7 @@ add("C04", "TestC04", "exploration",
     "Trusted: reference model, reference value encodings, legacy 0.5.10 writer (validated against the archive).", RAPID, "DESIGN.md §4 C04")
 
 add("C05", "TestC05", "exploration",
-    dict(cases=6000, shards=8), dict(cases=100000, shards=16, timeout_s=3000),
+    dict(cases=6000, shards=8), dict(cases=160000, shards=16, timeout_s=3000),
     "3/4 round-trip cases: a generated trie (all modes/encoders/value layouts) marshalled, rebuilt, reloaded via Unmarshal or proto.Unmarshal; 1/4 history cases: a drawn sequence of 1..6 operations {Unmarshal, proto.Unmarshal, Reset, Unmarshal(truncated stream), Unmarshal(incompatible version)} on ONE instance over a pool of 2..4 streams (empty/small/large, different modes, current and legacy layouts); non-trivial = round trip of a trie with >= 1 inner node, or a history in which a smaller stream or a failed load follows a larger one",
     "Round trip: len(Marshal) == proto.Size, building twice gives identical bytes, proto.Marshal == Marshal, re-marshalling the loaded trie reproduces the bytes, and every API (Get/GetID/RangeGet/Search on Q(keys), scans, Stat, String) answers identically on the fresh and the loaded trie (including false positives). Histories (stateful, model = a fresh twin loaded with only the last successfully applied stream): after every step the instance is observationally equal to the twin; empty on every API after Reset; empty for lookups and scans after a failed load.",
     "Trusted: the twin (a fresh instance loaded once) as the model of 'no residue'. Stat() after a FAILED direct Unmarshal is not asserted (no listed property constrains it).",
@@ -88,14 +88,14 @@ add("C05", "TestC05", "exploration",
 
 add("C06", "TestC06", "exploration",
     dict(cases=24000, shards=8, extra=[dict(test="TestC06Fidelity"), dict(test="TestC06Archive", shards=8)]),
-    dict(cases=100000, shards=16, timeout_s=3000, extra=[dict(test="TestC06Fidelity"), dict(test="TestC06Archive", shards=8)]),
+    dict(cases=500000, shards=16, timeout_s=3000, extra=[dict(test="TestC06Fidelity"), dict(test="TestC06Archive", shards=8)]),
     "key sets K1..K7/Krand bounded by what the old writers could encode x fixed-size encoders x 8 layouts (three-section families A 0.5.0, B 0.5.1-3, C1 0.5.4-6, C2 0.5.7, D 0.5.8, E 0.5.9 with header 1.0.0/0.5.8/0.5.9; 0.5.10 and 0.5.11 in nopref/innpref/allpref); streams are PRODUCED by re-implemented writers; plus the 97 archived files; non-trivial = >= 2 keys and the loader's conversion did something (a key ending at an inner node or a step for three-section; a stored prefix or leaf reconstruction for 0.5.10)",
     "Generated-input search: every generated legacy stream must load without error and answer Get, RangeGet and Search for every indexed key as the model; KeyCnt preserved; allpref streams additionally give exact answers on Q(keys) and correct scans.",
     "Trusted base: the re-implemented legacy writers. Their fidelity is measured on every run (writer_fidelity in the evidence: archived files reproduced byte-for-byte); the three-section writer shares no code with /repo, the 0.5.10 writer is a transformation of the current builder's message.",
     RAPID + " over streams produced by validated re-implementations of the historical writers", "DESIGN.md §4 C06, §3.5")
 
 add("C07", "TestC07", "fault_enumeration",
-    dict(cases=4000, shards=8), dict(cases=30000, shards=16, timeout_s=3000, fuzz=dict(target="FuzzC07", seconds=240)),
+    dict(cases=4000, shards=8), dict(cases=60000, shards=16, timeout_s=3000, fuzz=dict(target="FuzzC07", seconds=240)),
     "2/3 cut cases: a stream of a drawn layout (current x 4 modes, 0.5.10/0.5.11 x 3, three-section x 6) from a K1-K3/K5 key set; EVERY cut 0..len-1 when the stream is <= 4 KiB, else every cut within +-64 bytes of each header/section/top-level-field boundary plus up to 256 drawn cuts; the instance holds other data before each cut load. 1/3 version cases: the header version replaced by a string from a grammar (released 0.5.x outside the set, successors, other semver triples, pre-release suffixes, malformed, 16 bytes without terminator, random bytes; compatible strings as positive controls); non-trivial = a stream with cuts inside a body, or any version case",
     "Fault enumeration over the cut point of an interrupted write: each strict prefix must be rejected with an error (no panic, no success) and the instance must then answer lookups and scans as an empty trie; incompatible/unparsable versions must be rejected with ErrIncompatible in the cause chain and leave the instance empty; compatible versions must load and answer.",
     "Trusted: legacy writers (C06). A compatible triple with +build metadata is deliberately not in the must-reject set (semver precedence ignores build metadata).",
@@ -103,27 +103,27 @@ add("C07", "TestC07", "fault_enumeration",
 
 add("C08", "TestC08", "exploration",
     dict(cases=16000, shards=8, extra=[dict(test="TestC08Ladder", shards=8)]),
-    dict(cases=100000, shards=16, timeout_s=3000, extra=[dict(test="TestC08Ladder", shards=16)]),
+    dict(cases=400000, shards=16, timeout_s=3000, extra=[dict(test="TestC08Ladder", shards=16)]),
     "valid lists (K1..K6/Krand up to 10^4 keys) with 1..3 injected order violations at drawn indexes (equal neighbours, swapped neighbours, key followed by its own prefix, 0x7f/0x80 and 0xff/0x00 pairs in signed order), valid controls, and key sets whose single-branch run has a drawn length around the 16-bit step boundary; plus the enumerated step ladder L in {0,1,2,255..257,32767,32768,65534..65537,70000,131071,131072,200000}+-2 x 4 placements x 4 modes x dedup x values; non-trivial = violation not at the first/last index, or L within +-2 of a power-of-two boundary",
     "Generated-input search: independent strict-order predicate => (error with cause ErrKeyOutOfOrder and nil trie) for every invalid list, acceptance for every valid list within the documented 16 KiB key length; whatever is accepted must find every key it was built from with its value (Get and RangeGet).",
     "Trusted: bytes.Compare as the order predicate; reference model.",
     RAPID + " + enumerated step-length ladder", "DESIGN.md §4 C08")
 
 add("C20", "TestC20", "exploration",
-    dict(cases=6000, shards=8), dict(cases=80000, shards=16, timeout_s=3000),
+    dict(cases=6000, shards=8), dict(cases=160000, shards=16, timeout_s=3000),
     "cases as C01 in every layout (current and, for half of the cases, one of 8 legacy layouts), 1/10 rejected (out-of-order) inputs; scribble pattern all-0x00 / all-0xff / pseudo-random; non-trivial = >= 2 keys with values or stored prefixes",
     "Before/after snapshots and a differential against a pristine twin: NewSlimTrie leaves keys, values and the Opt struct (pointer identities and pointees) unchanged, also for rejected input; Unmarshal leaves its input buffer unchanged and overwriting the buffer afterwards changes no answer (lookups on Q(keys), scans, Stat, String, Marshal); overwriting Marshal output changes neither later answers nor later Marshal output; two Marshal results do not share memory.",
     "Trusted: legacy writers for the legacy layouts.", "snapshot + differential property-based testing (rapid)", "DESIGN.md §4 C20")
 
 add("C12", "TestC12", "exploration",
-    dict(cases=24000, shards=8), dict(cases=150000, shards=16, timeout_s=3000),
+    dict(cases=24000, shards=8), dict(cases=600000, shards=16, timeout_s=3000),
     "sorted record sets (keys K1..K7/Krand with arbitrary bytes, distinct payloads), either one strictly increasing offset per key (Get) or block offsets with block size 2..64 and drawn gaps (RangeGet); reader = map offset -> block that returns a record only when the key is in that block; queries = all keys and Q(keys); non-trivial = the reader had to reject at least one lookup (the underlying trie returned an offset for an absent key)",
     "Generated-input search against an exact map model: every indexed key returns its own record, every other string is not found.",
     "Trusted: the verifying reader written in the harness.", RAPID.replace("sorted-map", "map"), "DESIGN.md §4 C12")
 
 add("C15", "TestC15", "exploration",
     dict(cases=32000, shards=8, extra=[dict(test="TestC15Exhaustive", shards=8)]),
-    dict(cases=200000, shards=16, timeout_s=3000, extra=[dict(test="TestC15Exhaustive", shards=16, timeout_s=3000)]),
+    dict(cases=400000, shards=16, timeout_s=3000, extra=[dict(test="TestC15Exhaustive", shards=16, timeout_s=3000)]),
     "exhaustive: all 2^8 I8 and 2^16 I16/U16 values (x junk suffixes); I32/U32: all 2^32 values in the thorough tier, a dense boundary-biased sample (5 x 2^16 per codec) in quick; I64/U64/Int: every 2^k, 2^k+-1 and negations; rapid: random 64-bit values, String16 of lengths {0,1,2,255,256,257,65534,65535} and random, Bytes{Size} for sizes 1..16/255/256/4096/65536, TypeEncoder over three fixed-size struct types with nested arrays in both byte orders, Dummy (sizes only); with and without trailing junk; non-trivial = value with the top bit set or length >= 256",
     "Round trip + size agreement + independent layout: Encode(v) must equal a hand-written reference encoding (shifts, no encoding/binary: little-endian two's complement; configured order field by field for TypeEncoder; big-endian 16-bit length + bytes for String16), GetSize(v) == len == GetEncodedSize(enc ++ junk), Decode(enc ++ junk) = (len, v).",
     "Trusted: the hand-written reference encoders in the harness. Dummy is checked for sizes only (it documents that Decode returns nil).",
@@ -138,7 +138,7 @@ add("C16", "TestC16", "exploration",
     RAPID.replace("sorted-map", "map[int32]T"), "DESIGN.md §4 C16")
 
 add("C17", "TestC17", "exploration",
-    dict(cases=2400, shards=8), dict(cases=20000, shards=16, timeout_s=3000),
+    dict(cases=2400, shards=8), dict(cases=60000, shards=16, timeout_s=3000),
     "default options, no values; shapes: binary caterpillars with a step at every node, fan-out-11 byte nodes, per-node random label bitmaps, long keys (K4, up to 16 KiB), counters, byte fan-out, random bytes, K1, K2; n up to 10^4 (quick) / 10^5 (thorough); two drawn non-empty prefixes P1, P2 of 1 B..8 KiB; non-trivial = n >= 100 with >= n/4 steps, or a prefix >= 1 KiB",
     "Numeric bound len(Marshal()) <= 8n + 256, and metamorphic relation on prepending a common prefix: |size(P1+K) - size(P2+K)| <= 8 and |size(P+K) - size(K)| <= 24 + r, where r is the number of entries of the inner-prefix rank index (adding a step to a root that had none shifts every rank entry; varint growth can add a byte per entry).",
     "The tolerance r is read from the exported protobuf message of the built trie.", "metamorphic + bound property-based testing (rapid)", "DESIGN.md §4 C17")
